@@ -757,7 +757,12 @@ func VerifC11Bound(n, shape, masks, ord int) {
 // (:default-init-plist (:zzk k_i)), bit 4 own variable zzv<i> initable). The
 // defflavor forms are evaluated in every order that respects components before
 // users. Oracle: the first flavor in component precedence providing the
-// default / accessor / init keyword.
+// default / accessor / init keyword. For the default of x "providing" means
+// declaring x at all: slip gives every declared variable a default, nil for a
+// bare declaration, so the first declaration in precedence order - with or
+// without an explicit default - decides the value (lead's decision; the former
+// carve C11-undefaulted-var-shadows-default read a bare declaration as
+// transparent and was a false alarm).
 func VerifC11Vars(n, shape, decl, opts, ord int) {
 	c := zzC11Decode(n, shape, 0, 0)
 	vk := make([]int, n)
@@ -777,22 +782,9 @@ func VerifC11Vars(n, shape, decl, opts, ord int) {
 	setv := int64(vrt.Int32("setv"))
 	initv := int64(vrt.Int32("initv"))
 	// per flavor expectations
-	shadow := make([]bool, n)   // an undefaulted x in front of a component's default
 	initLost := make([]bool, n) // x initable in a component, own initable list non-empty without x
-	anyShadow, anyInitLost := false, false
+	anyInitLost := false
 	for i := 0; i < n; i++ {
-		first := -1
-		for _, f := range c.zzC11Prec(i) {
-			if vk[f] == 2 && first < 0 {
-				first = f
-			}
-			if vk[f] == 1 {
-				if 0 <= first {
-					shadow[i] = true
-				}
-				break
-			}
-		}
 		inh := false
 		for _, f := range c.zzC11Prec(i) {
 			if op[f]&4 != 0 {
@@ -800,19 +792,12 @@ func VerifC11Vars(n, shape, decl, opts, ord int) {
 			}
 		}
 		initLost[i] = inh && op[i]&4 == 0 && op[i]&16 != 0
-		anyShadow = anyShadow || shadow[i]
 		anyInitLost = anyInitLost || initLost[i]
 	}
 	part := 0
-	switch {
-	case anyShadow && anyInitLost:
-		part = vrt.Choice("part", 3)
-	case anyShadow:
-		part = vrt.Choice("part", 2)
-	case anyInitLost:
+	if anyInitLost {
 		part = 2 * vrt.Choice("part", 2)
 	}
-	vrt.Carve("C11-undefaulted-var-shadows-default", part == 1)
 	vrt.Carve("C11-initable-not-inherited", part == 2)
 	// forms that may signal a condition refer to the symbolic values through
 	// variables (a condition records the failing form as text)
@@ -862,9 +847,7 @@ func VerifC11Vars(n, shape, decl, opts, ord int) {
 	}
 	for i := 0; i < n; i++ {
 		in := 0
-		if shadow[i] {
-			in = 1
-		} else if initLost[i] {
+		if initLost[i] {
 			in = 2
 		}
 		if in == part {
@@ -879,12 +862,14 @@ func (c *zzC11Case) zzC11CheckVars(i int, vk, op []int, kv []int64, setv, initv 
 	hasX, hasDef, gettable, settable, initable, hasKey := false, false, false, false, false, false
 	var def, key int64
 	for _, f := range prec {
-		if vk[f] != 0 {
+		if vk[f] != 0 && !hasX {
+			// the first declaration in precedence order decides: its explicit
+			// default, or nil for a bare declaration
 			hasX = true
-		}
-		if vk[f] == 1 && !hasDef {
-			hasDef = true
-			def = c.pc[f]
+			if vk[f] == 1 {
+				hasDef = true
+				def = c.pc[f]
+			}
 		}
 		gettable = gettable || op[f]&1 != 0
 		settable = settable || op[f]&2 != 0
@@ -914,9 +899,9 @@ func (c *zzC11Case) zzC11CheckVars(i int, vk, op []int, kv []int64, setv, initv 
 	if hasX {
 		if hasDef {
 			fx, isFix := xv.(slip.Fixnum)
-			vrt.Assert(isFix && int64(fx) == def, "default of x is not the first one in component order, flavor "+si)
+			vrt.Assert(isFix && int64(fx) == def, "default of x is not the one of the first declaration in component order, flavor "+si)
 		} else {
-			vrt.Assert(xv == nil, "x without any default should be unbound/nil, flavor "+si)
+			vrt.Assert(xv == nil, "x whose first declaration has no default should be nil, flavor "+si)
 		}
 	}
 	// gettable
@@ -926,7 +911,7 @@ func (c *zzC11Case) zzC11CheckVars(i int, vk, op []int, kv []int64, setv, initv 
 		vrt.Assert(g.class == 0, "inherited gettable accessor missing, flavor "+si)
 		if hasDef {
 			fx, isFix := g.val.(slip.Fixnum)
-			vrt.Assert(isFix && int64(fx) == def, "(send inst :x) is not the first default in component order, flavor "+si)
+			vrt.Assert(isFix && int64(fx) == def, "(send inst :x) is not the default of the first declaration in component order, flavor "+si)
 		} else {
 			vrt.Assert(g.val == nil, "(send inst :x) should be nil, flavor "+si)
 		}
